@@ -48,37 +48,37 @@ func FX(n int64) sdkmath.Int { return sdkmath.NewInt(n).MulRaw(1e18) }
 
 // ChainCfg is the per-run configuration of one crosschain module.
 type ChainCfg struct {
-	Name                 string   `json:"name"`
-	GravityID            string   `json:"gravity_id"`
-	Oracles              int      `json:"oracles"`          // approved (ProposalOracle) at genesis
-	SignedWindow         uint64   `json:"signed_window"`    // blocks
-	AvgBlockTimeMs       uint64   `json:"avg_block_ms"`
-	AvgExtBlockTimeMs    uint64   `json:"avg_ext_block_ms"`
-	BatchTimeoutMs       uint64   `json:"batch_timeout_ms"`
-	BridgeCallTimeoutMs  uint64   `json:"bridge_call_timeout_ms"`
-	SlashFractionPct     int64    `json:"slash_fraction_pct"`
-	PowerChangePct       int64    `json:"power_change_pct"`
-	DelegateThresholdFX  int64    `json:"delegate_threshold_fx"`
-	DelegateMultiple     int64    `json:"delegate_multiple"`
-	BridgeCallMaxGas     uint64   `json:"bridge_call_max_gas"`
-	IbcTimeoutHeight     uint64   `json:"ibc_timeout_height"`
+	Name                string `json:"name"`
+	GravityID           string `json:"gravity_id"`
+	Oracles             int    `json:"oracles"`       // approved (ProposalOracle) at genesis
+	SignedWindow        uint64 `json:"signed_window"` // blocks
+	AvgBlockTimeMs      uint64 `json:"avg_block_ms"`
+	AvgExtBlockTimeMs   uint64 `json:"avg_ext_block_ms"`
+	BatchTimeoutMs      uint64 `json:"batch_timeout_ms"`
+	BridgeCallTimeoutMs uint64 `json:"bridge_call_timeout_ms"`
+	SlashFractionPct    int64  `json:"slash_fraction_pct"`
+	PowerChangePct      int64  `json:"power_change_pct"`
+	DelegateThresholdFX int64  `json:"delegate_threshold_fx"`
+	DelegateMultiple    int64  `json:"delegate_multiple"`
+	BridgeCallMaxGas    uint64 `json:"bridge_call_max_gas"`
+	IbcTimeoutHeight    uint64 `json:"ibc_timeout_height"`
 }
 
 // Config is everything a world is built from; it is part of every replay file.
 type Config struct {
-	Validators      int        `json:"validators"`
-	ValStakeFX      []int64    `json:"val_stake_fx"`
-	Users           int        `json:"users"`
-	UserFundFX      int64      `json:"user_fund_fx"`
-	Chains          []ChainCfg `json:"chains"`
-	UnbondingSec    int64      `json:"unbonding_sec"`
-	GovMinDepositFX int64      `json:"gov_min_deposit_fx"`
-	GovDepositSec   int64      `json:"gov_deposit_sec"`
-	GovVotingSec    int64      `json:"gov_voting_sec"`
-	GovQuorumPct    int64      `json:"gov_quorum_pct"`
-	SlashWindow     int64      `json:"slash_window"`
-	MinSignedPct    int64      `json:"min_signed_pct"`
-	NoInflation     bool       `json:"no_inflation"`
+	Validators      int               `json:"validators"`
+	ValStakeFX      []int64           `json:"val_stake_fx"`
+	Users           int               `json:"users"`
+	UserFundFX      int64             `json:"user_fund_fx"`
+	Chains          []ChainCfg        `json:"chains"`
+	UnbondingSec    int64             `json:"unbonding_sec"`
+	GovMinDepositFX int64             `json:"gov_min_deposit_fx"`
+	GovDepositSec   int64             `json:"gov_deposit_sec"`
+	GovVotingSec    int64             `json:"gov_voting_sec"`
+	GovQuorumPct    int64             `json:"gov_quorum_pct"`
+	SlashWindow     int64             `json:"slash_window"`
+	MinSignedPct    int64             `json:"min_signed_pct"`
+	NoInflation     bool              `json:"no_inflation"`
 	NodeOpts        map[string]string `json:"node_opts,omitempty"`
 }
 
@@ -552,8 +552,8 @@ type Transcript struct {
 }
 
 type TranscriptBlock struct {
-	Req     *abci.RequestFinalizeBlock `json:"req"`
-	AppHash []byte                     `json:"app_hash"`
+	Req     *abci.RequestFinalizeBlock  `json:"req"`
+	AppHash []byte                      `json:"app_hash"`
 	Resp    *abci.ResponseFinalizeBlock `json:"-"` // reference results of the recording run (C17)
 	Dirty   []string                    `json:"-"` // stores written outside a block before this one (harness leak, C17)
 }
